@@ -1,4 +1,5 @@
 import BreezyVerif.Lemmas.C27Orphan
+import BreezyVerif.Lemmas.C27Lost
 /-!
 C27 — lock operations leave recoverable state at every crash point.
 
@@ -282,6 +283,67 @@ example :
     s.held = okDir ⟨1, 1⟩ ∧ (s.lk 0).pc = .idle ∧ (s.cfg 0).steal = true ∧
       stealable s.cfg s.crashed 0 ⟨1, 1⟩ = true ∧
       (s.run evs).held = none ∧ ((s.run evs).lk 0).last = .faultT ∧ ((s.run evs).lk 0).junk = [(.B, some (.ok ⟨1, 1⟩))] := by
+  decide +kernel
+
+/-! ## lost replies -/
+
+/-- **Every crash point stays recoverable when renames may take effect and then raise** (lost replies, any
+number, mixed with every other event; both variants of the contention handler). -/
+theorem crash_recoverable_lost (fx : Bool) (cfg : Nat → Cfg) (h0 : Option Dir) (evs : List Ev27)
+    (h : recoverable h0 = true) : recoverable (run27 fx (Sys.init cfg h0) evs).held = true :=
+  ((RInvW.init cfg h0 h).run27 fx evs).disk
+
+/-- the layer is conservative: without lost replies the extended machine is the machine of C26 -/
+theorem run27_base (cfg : Nat → Cfg) (h0 : Option Dir) (evs : List Ev) :
+    run27 false (Sys.init cfg h0) (evs.map .base) = (Sys.init cfg h0).run evs := by
+  have key : ∀ (evs : List Ev) (s : Sys), PendOk s → run27 false s (evs.map .base) = s.run evs := by
+    intro evs
+    induction evs with
+    | nil => intro s _; rfl
+    | cons e es ih =>
+      intro s hp
+      simp only [List.map_cons, run27, List.foldl_cons, Sys.run]
+      have hstep : step27 false s (.base e) = s.step e := by
+        cases e with
+        | step i =>
+          simp only [step27]
+          have h1 : ¬ (s.crashed i = false ∧ (s.lk i).pc = .aRename ∧ (s.lk i).pend = none) := by
+            intro ⟨_, hpc, hn⟩
+            have := hp i (by simp [hpc, Pc.hasPend])
+            rw [hn] at this; simp [okDir] at this
+          simp [h1]
+        | _ => rfl
+      rw [hstep]
+      exact ih (s.step e) (hp.step e)
+  exact key evs _ (PendOk.init cfg h0)
+
+/-- **Witness (finding).**  Locker 0 attempts the free lock; its rename takes effect but the reply is lost
+(the call raises a transport error): the contention handler peeks, finds a live holder — itself — and
+raises `LockContention`; `attempt_lock` fails, `_lock_held` is false, and the lock on disk stays held with
+locker 0's info. -/
+theorem lost_reply_rename_witness :
+    let s := run27 false (Sys.init (fun _ => ⟨1, 1, false⟩))
+      [.base (.start 0 .attempt), .base (.step 0), .base (.step 0), .lost 0 .T, .base (.step 0), .base (.step 0)]
+    (s.lk 0).pc = .idle ∧ (s.lk 0).last = .contention ∧ (s.lk 0).held = false ∧
+      s.held = some (some (.ok ⟨0, 1⟩)) := by
+  decide +kernel
+
+/-- with a contention handler that recognises its own current nonce the same schedule ends with the lock
+held: mkdir, put, rename (reply lost), peek, confirming peek -/
+theorem lost_reply_rename_fixed (s : Sys) (i : Nat) (k : FaultKind) (hfree : s.held = none)
+    (hidle : (s.lk i).pc = .idle) (hal : s.crashed i = false) :
+    let evs : List Ev27 := [.base (.start i .attempt), .base (.step i), .base (.step i), .lost i k,
+      .base (.step i), .base (.step i)]
+    ((run27 true s evs).lk i).held = true ∧ ((run27 true s evs).lk i).last = .ok ∧
+      ownerOf (run27 true s evs).held = some i := by
+  simp [run27, step27, lostReply, Sys.step, hal, hidle, hfree, startOp, lstep, peekDir, Locker.done, ownerOf]
+
+/-- a lost reply of the rename in `unlock`: the lock is free, the `releasing.*` directory stays behind, and
+the locker still believes it holds the lock (`_lock_held = False` comes after the rename) -/
+example :
+    let s := run27 false (Sys.init (fun _ => ⟨1, 1, false⟩))
+      ([.start 0 .attempt, .step 0, .step 0, .step 0, .step 0, .start 0 .unlock, .step 0].map .base ++ [.lost 0 .P])
+    s.held = none ∧ (s.lk 0).held = true ∧ (s.lk 0).last = .swallowed ∧ (s.lk 0).junk = [(.R, some (.ok ⟨0, 1⟩))] := by
   decide +kernel
 
 end BreezyVerif.C27
